@@ -195,7 +195,7 @@ def run(ck, fb, fbd):
     ck.analysed["candidate_loops"] = nloops
     ck.floor("candidate_loops", nloops, 9)
     ck.analysed["hit_returns"] = nret
-    ck.floor("hit_returns", nret, 17)
+    ck.floor("hit_returns", nret, 14)
 
     # ------------------------------------------------------------------ per-function shapes
     def judge(ok, l, n, text, key):
@@ -217,6 +217,10 @@ def run(ck, fb, fbd):
         x = l.cn.s(n.get("x"))
         ep = l.endpoint_facts(b)
         hs = {h for w, h, v in ep}
+        if not ep:
+            # a hit that is not produced by comparing endpoints at all (e.g. a delegated lookup): another formulation, not judged
+            ck.cannot_judge("%s: find_halfedge_in_cell returns %s without any from/to-vertex fact - rule K.match does not know this formulation, re-audit" % (l.f.loc(n), x[:60]))
+            continue
         ok = False
         for h in hs:
             fwd = {("from", h, "P0"), ("to", h, "P1")} <= ep and x == h
@@ -278,6 +282,9 @@ def run(ck, fb, fbd):
         x = l.cn.s(n.get("x"))
         ep = l.endpoint_facts(b)
         hs = {h for w, h, v in ep}
+        if not any(v.startswith("P0[") for w, h, v in ep):
+            ck.cannot_judge("%s: find_halfface_in_cell returns %s without comparing from/to-vertices with the given vertices - rule K.match does not know this formulation, re-audit" % (l.f.loc(n), x[:60]))
+            continue
         ok = False
         sub = l.subexprs(b) + [y for y in walk(l.f.resolve(n.get("x"))) if isinstance(y, dict)]
         for h in hs:
@@ -290,6 +297,9 @@ def run(ck, fb, fbd):
             adj = "adjacent_halfface_in_cell(%s, %s)" % (F, h)
             if {("from", h, "P0[1]"), ("to", h, "P0[0]")} <= ep and x == adj and any(("to", "next_halfedge_in_halfface(%s, %s)" % (oh_, adj), "P0[2]") in ep for oh_ in opp_he(h)):
                 ok = True
+        if not ok and any(v == "P0[2]" for w, h, v in ep) and not any(("next_halfedge_in_halfface(" in h) for w, h, v in ep if v == "P0[2]"):
+            ck.cannot_judge("%s: find_halfface_in_cell compares the third vertex without next_halfedge_in_halfface - rule K.match does not know this formulation, re-audit" % l.f.loc(n))
+            continue
         judge(ok, l, n, "find_halfface_in_cell returns the halfface F of the cell holding h=(v0,v1) with next(h,F) ending in v2, or - for h=(v1,v0) - the adjacent halfface A in the cell with next(opposite(h),A) ending in v2 (returned %s)" % x[:70], "find_halfface_in_cell:%s" % ("adj" if "adjacent" in x else "same"))
 
     # find_halfface_extensive(vertices)
